@@ -525,7 +525,16 @@ class DirectSolver(LinearSolver):
 
         # matrix-vector-product generated jacobians are scaled.
         else:
-            x_vec[:] = sol_array = scipy.linalg.lu_solve(self._lup, b_vec, trans=trans_lu)
+            if mode == 'rev' and (d_outputs._scaling is not None or d_residuals._scaling is not None):
+                # The matrix built by _build_mtx is the forward scaled operator Ms = Dr^-1 M Du, and both
+                # linear vectors are normalized the forward way (c_s = Du^-1 c, y_s = Dr^-1 y).  The
+                # adjoint system M^T y = c therefore reads Ms^T (Dr^2 y_s) = Du^2 c_s.
+                du = 1.0 if d_outputs._scaling is None else d_outputs._scaling[0]
+                dr = 1.0 if d_residuals._scaling is None else d_residuals._scaling[0]
+                sol_array = scipy.linalg.lu_solve(self._lup, b_vec * du ** 2, trans=trans_lu)
+                x_vec[:] = sol_array = sol_array / dr ** 2
+            else:
+                x_vec[:] = sol_array = scipy.linalg.lu_solve(self._lup, b_vec, trans=trans_lu)
 
         if not system.under_complex_step and self._lin_rhs_checker is not None and mode == 'rev':
             self._lin_rhs_checker.add_solution(b_vec, sol_array, system, copy=True)
